@@ -4,7 +4,7 @@
    (gen/Scalar.v, gen/HxDispatch.v), over Coq's real numbers. *)
 From Coq Require Import Reals Bool.
 From OP Require Import gen.Consts gen.HxDispatch gen.Scalar model.HX
-  proofs.HXBase proofs.HXBranch proofs.HXShell proofs.HXFull proofs.HXSecant proofs.HXRefute proofs.HXLeCF proofs.LMTD.
+  proofs.HXBase proofs.HXBranch proofs.HXShell proofs.HXFull proofs.HXSecant proofs.HXRefute proofs.HXLeCF proofs.HXLeCF2 proofs.LMTD.
 Local Open Scope R_scope.
 
 (* Every arrangement the library names, passed as the enum member or as its text, reaches its own branch of HX_Eff and
@@ -104,13 +104,66 @@ Theorem C20_lmtd_sym : forall a b,
 Proof. exact lmtd_sym_all. Qed.
 Print Assumptions C20_lmtd_sym.
 
-(* "never exceeds the counter-flow value": proved for parallel flow (all NTU > 0, all c in [0,1], via sinh(cN) <= c sinh N)
-   and for the condensing/evaporating arrangement, which ignores c and equals counter-flow at c = 0.
-   OPEN: the same inequality for the other three closed forms,
-     forall N c, 0 < N -> 0 < c <= 1 -> eff_CrFMUmax N c <= eff_CF N c /\ eff_CrFMUmin N c <= eff_CF N c /\ eff_ShellTube N c <= eff_CF N c,
-   is not proved (it is evaluated on the implementation by the sweep on every run: clause 3 of judge_eff_row);
-   OPEN: range / monotonicity / comparison for the 20-term series (CrFUU) and range for CrFMM: only the refutations above
-   and the sweep. *)
+(* "never exceeds the counter-flow value", branch by branch (single pass, same NTU, same capacity ratio).
+   Parallel flow (all NTU > 0, all c in [0,1], via sinh(cN) <= c sinh N) and the condensing/evaporating arrangement,
+   which ignores c and equals counter flow at c = 0 (and therefore lies ABOVE counter flow at the same c > 0: the sweep
+   compares it with counter flow at c = 0). *)
 Theorem C20_eff_le_cf_partial : forall N c, 0 < N -> 0 <= c <= 1 -> eff_PF N c <= eff_CF N c /\ eff_CondEvap N c = eff_CF N 0.
 Proof. exact eff_le_cf_PF_CondEvap. Qed.
 Print Assumptions C20_eff_le_cf_partial.
+
+(* ... the two one-fluid-mixed cross-flow correlations and the shell-and-tube correlation, for every NTU > 0 and every
+   0 < c <= 1 (the c = 1 branch N/(1+N) of counter flow included).  Each is a mean-value argument on a logarithm-free
+   form G(N) >= 0, G(0) = 0, whose derivative has the sign of (1-c) e^{cN} + c e^{-(1-c)N} - 1 >= 0 (cross flow), resp. on
+   u coth u being non-decreasing (shell and tube: d coth(N d/2) >= (1-c) coth(N (1-c)/2) with d = sqrt(1+c^2) >= 1-c). *)
+Theorem C20_eff_le_cf_closed_forms : forall N c, 0 < N -> 0 < c <= 1 ->
+  eff_CrFMUmax N c <= eff_CF N c /\ eff_CrFMUmin N c <= eff_CF N c /\ eff_ShellTube N c <= eff_CF N c.
+Proof. exact eff_le_cf_closed_forms. Qed.
+Print Assumptions C20_eff_le_cf_closed_forms.
+
+(* ... and cross flow with both fluids mixed (numerically inverted arrangement): with phi(u) = u coth u - 1 >= 0
+   non-decreasing, 1/eps_mm - 1/eps_cf = (phi(N/2) + phi(cN/2) - phi((1-c)N/2)) / N >= 0 *)
+Theorem C20_eff_le_cf_CrFMM : forall N c, 0 < N -> 0 < c <= 1 -> eff_CrFMM N c <= eff_CF N c.
+Proof. exact eff_CrFMM_le_CF. Qed.
+Print Assumptions C20_eff_le_cf_CrFMM.
+
+(* the same through the whole function: every arrangement except cross-flow-both-unmixed (refuted above, D15) and
+   CondEvap (compared at c = 0, next theorem), either label form on either side, every NTU > 0, every c in [0,1] (c = 0
+   branch included), (a) any real number of passes P > 0 on both sides, (b) P >= 1 passes against SINGLE-pass counter flow
+   at the same total NTU -- what clause 3 of judge_eff_row evaluates on the implementation -- because P counter-flow
+   passes in series are one counter-flow exchanger: MultiPassEff(eff_CF(N/P, c), c, P) = eff_CF(N, c). *)
+Theorem C20_eff_le_cf : forall a f f' N c P, le_cf_form a = true -> 0 < N -> 0 <= c <= 1 -> 0 < P ->
+  HX_Eff_R (mk_label a f) N c P <= HX_Eff_R (mk_label hx_CF f') N c P.
+Proof. exact HX_eff_le_cf. Qed.
+Print Assumptions C20_eff_le_cf.
+Theorem C20_eff_le_cf_single_pass_reference : forall a f f' N c P, le_cf_form a = true -> 0 < N -> 0 <= c <= 1 -> 1 <= P ->
+  HX_Eff_R (mk_label a f) N c P <= HX_Eff_R (mk_label hx_CF f') N c 1.
+Proof. exact HX_eff_le_cf1. Qed.
+Print Assumptions C20_eff_le_cf_single_pass_reference.
+Theorem C20_counter_flow_passes : forall f N c P, 0 < N -> 0 <= c <= 1 -> 1 <= P ->
+  HX_Eff_R (mk_label hx_CF f) N c P = HX_Eff_R (mk_label hx_CF f) N c 1.
+Proof. exact HX_Eff_CF_passes. Qed.
+Print Assumptions C20_counter_flow_passes.
+(* the set `le_cf_form` is exactly: all arrangements but CrFUU and CondEvap *)
+Theorem C20_le_cf_form_spec : forall a, le_cf_form a = true <-> (a <> hx_CrFUU /\ a <> hx_CondEvap).
+Proof. exact le_cf_form_spec. Qed.
+Print Assumptions C20_le_cf_form_spec.
+(* CondEvap, single pass, any c: equals counter flow at c = 0 (whole function, either label form on either side) *)
+Theorem C20_eff_CondEvap_cf0 : forall f f' N c, 0 < N -> 0 <= c <= 1 ->
+  HX_Eff_R (mk_label hx_CondEvap f) N c 1 = HX_Eff_R (mk_label hx_CF f') N 0 1.
+Proof. exact HX_eff_CondEvap_cf0. Qed.
+Print Assumptions C20_eff_CondEvap_cf0.
+
+(* range (0,1) of the both-mixed cross-flow correlation: branch (every NTU > 0, every c > 0) and whole function (either
+   label form, c in [0,1], any passes P > 0).  Its monotonicity in NTU is REFUTED above (D34). *)
+Theorem C20_eff_range_CrFMM_branch : forall N c, 0 < N -> 0 < c -> 0 < eff_CrFMM N c < 1.
+Proof. exact eff_CrFMM_range. Qed.
+Print Assumptions C20_eff_range_CrFMM_branch.
+Theorem C20_eff_range_CrFMM : forall f N c P, 0 < N -> 0 <= c <= 1 -> 0 < P -> 0 < HX_Eff_R (mk_label hx_CrFMM f) N c P < 1.
+Proof. exact HX_eff_range_CrFMM. Qed.
+Print Assumptions C20_eff_range_CrFMM.
+
+(* OPEN: range and monotonicity in NTU of the 20-term series (CrFUU):
+     forall N c, 0 < N -> 0 < c <= 1 -> 0 < eff_CrFUU N c < 1   and
+     forall N1 N2 c, 0 < N1 -> N1 < N2 -> 0 < c <= 1 -> eff_CrFUU N1 c <= eff_CrFUU N2 c
+   are not proved (only the refutation of `<= counter flow` above and the sweep on every run). *)
